@@ -267,10 +267,11 @@ func (act *activation) store(a *alt, addr, v term.ID, ins ssa.Instruction) {
 	}
 	a.heap[addr] = v
 	a.impure = true
-	a.atoms = a.atoms.Add(e.T.Mk("store", addr, v))
+	sv := e.snapshot(v, a.cells, 0) // what a stored &T{...} holds at this point
+	a.atoms = a.atoms.Add(e.T.Mk("store", addr, sv))
 	act.escapeInto(a, v)
 	if act.record {
-		act.events = append(act.events, &Event{Key: "store", Kind: "store", Instr: ins, Fn: act.fn, Args: []term.ID{addr, v}, Atoms: a.atoms, Stack: append([]string(nil), e.stackNames...)})
+		act.events = append(act.events, &Event{Key: "store", Kind: "store", Instr: ins, Fn: act.fn, Args: []term.ID{addr, sv}, Atoms: a.atoms, Stack: append([]string(nil), e.stackNames...)})
 	}
 }
 
@@ -320,6 +321,10 @@ func (act *activation) execBlock(b *ssa.BasicBlock, a *alt, edgeOut map[edge][]*
 					res[i] = act.val(x, r)
 				}
 				act.addRet(x, res)
+				if act.record && act.depth == 0 {
+					// per-return-site view of the entry function (return classes are merged by outcome)
+					act.events = append(act.events, &Event{Key: "return", Kind: "return", Instr: ins, Fn: act.fn, Args: res, Atoms: x.atoms})
+				}
 			}
 			return
 		case *ssa.Panic:
